@@ -106,6 +106,7 @@ fn main() {
                 "c10_compile" => checks::c10::child_compile,
                 "c18_encode" => checks::c18::child_encode,
                 "c16_request" => checks::c16::child_request,
+                "c12_front" => checks::c12::child_front,
                 _ => usage(),
             };
             runner::child_main(&args[3], stack_kb, f);
